@@ -675,6 +675,7 @@ package apd
 //@   loop 1 decreases len(xs) - #i
 //@   ensures [inv] (d.Form == old(d.Form) || d.Form == Infinite) && val(d.Coeff) >= 0 && (closed(res) ==> closed(ret))
 //@   ensures [sys] syscode(xs, sumupto(xs, len(xs)) + nd10(old(val(d.Coeff))) - 1) != 0 ==> (ret == syscode(xs, sumupto(xs, len(xs)) + nd10(old(val(d.Coeff))) - 1) && unchanged(d))
+//@   ensures [plain] ctxsane(c) && syscode(xs, sumupto(xs, len(xs)) + nd10(old(val(d.Coeff))) - 1) == 0 && sumupto(xs, len(xs)) + nd10(old(val(d.Coeff))) - 1 >= c.MinExponent && sumupto(xs, len(xs)) + nd10(old(val(d.Coeff))) - 1 <= c.MaxExponent ==> ret == (res | flag(has(res, Inexact) && has(res, Subnormal), Underflow)) && val(d.Coeff) == old(val(d.Coeff)) && d.Exponent == sumupto(xs, len(xs)) && d.Form == old(d.Form)
 //@   ensures [main] ctxsane(c) && syscode(xs, sumupto(xs, len(xs)) + nd10(old(val(d.Coeff))) - 1) == 0 ==> SEmain(c, old(d.Form), old(d.Negative), old(val(d.Coeff)), sumupto(xs, len(xs)), sumupto(xs, len(xs)) + nd10(old(val(d.Coeff))) - 1, res, d, ret)
 
 // ---------------------------------------------------------------- the rounding oracle (C01/C02/C07), written from the property text
@@ -710,6 +711,10 @@ package apd
 //@ define closed(r: cond): bool = only(r, 4095)
 //@ define trapped(c: *Context, r: cond): bool = has(r, SystemOverflow | SystemUnderflow) || has(r, c.Traps)
 
+// Precision 0 (rounding disabled, as in BaseContext): the exact value is returned, subject only to the exponent limits (C01, last sentence).
+//@ define p0ctx(c: *Context): bool = c.Precision == 0 && -100000 <= c.MinExponent && c.MinExponent <= 0 && 0 <= c.MaxExponent && c.MaxExponent <= 100000
+//@ define inlimits0(c: *Context, C: int, E: int): bool = C >= 0 && -100000 <= E && E <= 100000 && E + nd10(C) - 1 >= c.MinExponent && E + nd10(C) - 1 <= c.MaxExponent
+//@ define Exact0(neg: bool, C: int, E: int, d: *Decimal, ret: cond): bool = d.Form == Finite && d.Negative == neg && val(d.Coeff) == C && d.Exponent == E && ret == 0
 //@ func Rounder.Round
 //@   props C01 C02 C07 C20
 //@   unreachable ret2: diff > 0 at that point, so diff < MinExponent cannot hold
@@ -724,6 +729,7 @@ package apd
 //@   hint pow10_add(c.Precision - 1, etiny(c) - x.Exponent)
 //@   hint div_lt(val(x.Coeff), pow10(etiny(c) - x.Exponent), pow10(c.Precision - 1))
 //@   ensures [inv] inv(d) && closed(ret)
+//@   ensures [exact0] disableIfPrecisionZero && p0ctx(c) && old(x.Form == Finite && inv(x)) && old(inlimits0(c, val(x.Coeff), x.Exponent)) ==> Exact0(old(x.Negative), old(val(x.Coeff)), old(x.Exponent), d, ret)
 //@   ensures [esys] (disableIfPrecisionZero || c.Precision != 0) && (old(x.Exponent) < -100000 || old(x.Exponent) > 100000) ==> hassys(ret)
 //@   ensures [infovf] old(finwfI(c, x)) && old(x.Exponent) + nd10(old(val(x.Coeff))) - 1 > c.MaxExponent ==> hassys(ret) || (d.Form == Infinite && d.Negative == old(x.Negative) && only(ret, Rounded | Inexact | Overflow | Clamped))
 //@   ensures [fits] old(finwf(c, x)) && r == c.Rounding && !hassys(ret) ==> fits(c, d)
@@ -789,6 +795,7 @@ package apd
 //@   assigns d
 //@   outs d
 //@   ensures [inv] inv(d) && closed(ret)
+//@   ensures [exact0] p0ctx(c) && old(x.Form == Finite) && old(inlimits0(c, val(x.Coeff), x.Exponent)) ==> Exact0(old(x.Negative), old(val(x.Coeff)), old(x.Exponent), d, ret)
 //@   ensures [rounded] wfctx(c) && old(x.Form) == Finite ==> Rounded(c, old(x.Negative), old(val(x.Coeff)), old(x.Exponent), d, ret)
 //@   ensures [fits] wfctx(c) && !hassys(ret) ==> fits(c, d)
 //@   ensures [shape] d.Negative == old(x.Negative) && (d.Form == old(x.Form) || d.Form == Infinite)
@@ -818,6 +825,7 @@ package apd
 //@   ensures [invkeep] old(inv(d)) ==> inv(d)
 //@   ensures [closed] closed(ret0) && inv(d)
 //@   ensures [trap] ret1 != nil <==> trapped(c, ret0)
+//@   ensures [exact0] p0ctx(c) && old(x.Form == Finite) && old(inlimits0(c, val(x.Coeff), x.Exponent)) ==> Exact0(old(x.Negative), old(val(x.Coeff)), old(x.Exponent), d, ret0)
 //@   ensures [rounded] wfctx(c) && old(x.Form) == Finite ==> Rounded(c, old(x.Negative), old(val(x.Coeff)), old(x.Exponent), d, ret0)
 //@   ensures [sysiff] wfctx(c) && old(x.Form) == Finite ==> SysIff(c, old(x.Negative), old(val(x.Coeff)), old(x.Exponent), ret0)
 //@   ensures [nan] NaN1(x, d, ret0)
@@ -841,6 +849,7 @@ package apd
 //@   ensures [gap] old(bothfin(x, y) && gap(x, y)) ==> unchanged(d) && ret0 == 0
 //@   ensures [trap] ret1 != nil <==> (trapped(c, ret0) || old(bothfin(x, y) && gap(x, y)))
 //@   ensures [nan] NaN2(x, y, d, ret0)
+//@   ensures [exact0] p0ctx(c) && old(bothfin(x, y) && !gap(x, y)) && old(inlimits0(c, abs(addS(x, y, y.Negative != subtract)), min(x.Exponent, y.Exponent))) ==> Exact0(old(addNeg(c, x, y.Negative != subtract, addS(x, y, y.Negative != subtract))), abs(old(addS(x, y, y.Negative != subtract))), old(min(x.Exponent, y.Exponent)), d, ret0)
 //@   ensures [infinv] old(!isnan(x) && !isnan(y) && x.Form == Infinite && y.Form == Infinite && x.Negative != (y.Negative != subtract)) ==> (d.Form == NaN && ret0 == InvalidOperation)
 //@   ensures [inf] old(!isnan(x) && !isnan(y) && (x.Form == Infinite || y.Form == Infinite) && !(x.Form == Infinite && y.Form == Infinite && x.Negative != (y.Negative != subtract))) ==> (d.Form == Infinite && d.Negative == old(ite(x.Form == Infinite, x.Negative, y.Negative != subtract)) && ret0 == 0)
 //@   ensures [rounded] wfctx(c) && old(bothfin(x, y) && !gap(x, y)) ==> Rounded(c, old(addNeg(c, x, y.Negative != subtract, addS(x, y, y.Negative != subtract))), abs(old(addS(x, y, y.Negative != subtract))), old(min(x.Exponent, y.Exponent)), d, ret0)
@@ -857,6 +866,7 @@ package apd
 //@   ensures [gap] old(bothfin(x, y) && gap(x, y)) ==> unchanged(d) && ret0 == 0
 //@   ensures [trap] ret1 != nil <==> (trapped(c, ret0) || old(bothfin(x, y) && gap(x, y)))
 //@   ensures [nan] NaN2(x, y, d, ret0)
+//@   ensures [exact0] p0ctx(c) && old(bothfin(x, y) && !gap(x, y)) && old(inlimits0(c, abs(addS(x, y, y.Negative)), min(x.Exponent, y.Exponent))) ==> Exact0(old(addNeg(c, x, y.Negative, addS(x, y, y.Negative))), abs(old(addS(x, y, y.Negative))), old(min(x.Exponent, y.Exponent)), d, ret0)
 //@   ensures [infinv] old(!isnan(x) && !isnan(y) && x.Form == Infinite && y.Form == Infinite && x.Negative != y.Negative) ==> (d.Form == NaN && ret0 == InvalidOperation)
 //@   ensures [inf] old(!isnan(x) && !isnan(y) && (x.Form == Infinite || y.Form == Infinite) && !(x.Form == Infinite && y.Form == Infinite && x.Negative != y.Negative)) ==> (d.Form == Infinite && d.Negative == old(ite(x.Form == Infinite, x.Negative, y.Negative)) && ret0 == 0)
 //@   ensures [rounded] wfctx(c) && old(bothfin(x, y) && !gap(x, y)) ==> Rounded(c, old(addNeg(c, x, y.Negative != false, addS(x, y, y.Negative != false))), abs(old(addS(x, y, y.Negative != false))), old(min(x.Exponent, y.Exponent)), d, ret0)
@@ -873,6 +883,7 @@ package apd
 //@   ensures [gap] old(bothfin(x, y) && gap(x, y)) ==> unchanged(d) && ret0 == 0
 //@   ensures [trap] ret1 != nil <==> (trapped(c, ret0) || old(bothfin(x, y) && gap(x, y)))
 //@   ensures [nan] NaN2(x, y, d, ret0)
+//@   ensures [exact0] p0ctx(c) && old(bothfin(x, y) && !gap(x, y)) && old(inlimits0(c, abs(addS(x, y, !y.Negative)), min(x.Exponent, y.Exponent))) ==> Exact0(old(addNeg(c, x, !y.Negative, addS(x, y, !y.Negative))), abs(old(addS(x, y, !y.Negative))), old(min(x.Exponent, y.Exponent)), d, ret0)
 //@   ensures [infinv] old(!isnan(x) && !isnan(y) && x.Form == Infinite && y.Form == Infinite && x.Negative == y.Negative) ==> (d.Form == NaN && ret0 == InvalidOperation)
 //@   ensures [inf] old(!isnan(x) && !isnan(y) && (x.Form == Infinite || y.Form == Infinite) && !(x.Form == Infinite && y.Form == Infinite && x.Negative == y.Negative)) ==> (d.Form == Infinite && d.Negative == old(ite(x.Form == Infinite, x.Negative, !y.Negative)) && ret0 == 0)
 //@   ensures [rounded] wfctx(c) && old(bothfin(x, y) && !gap(x, y)) ==> Rounded(c, old(addNeg(c, x, y.Negative != true, addS(x, y, y.Negative != true))), abs(old(addS(x, y, y.Negative != true))), old(min(x.Exponent, y.Exponent)), d, ret0)
@@ -886,6 +897,7 @@ package apd
 //@   ensures [invkeep] old(inv(d)) ==> inv(d)
 //@   ensures [closed] closed(ret0) && inv(d)
 //@   ensures [trap] ret1 != nil <==> trapped(c, ret0)
+//@   ensures [exact0] p0ctx(c) && old(x.Form == Finite) && old(inlimits0(c, val(x.Coeff), x.Exponent)) ==> Exact0(false, old(val(x.Coeff)), old(x.Exponent), d, ret0)
 //@   ensures [rounded] wfctx(c) && old(x.Form) == Finite ==> Rounded(c, false, old(val(x.Coeff)), old(x.Exponent), d, ret0)
 //@   ensures [nan] NaN1(x, d, ret0)
 //@   ensures [inf] Inf1(x, false, d, ret0)
@@ -899,6 +911,7 @@ package apd
 //@   ensures [invkeep] old(inv(d)) ==> inv(d)
 //@   ensures [closed] closed(ret0) && inv(d)
 //@   ensures [trap] ret1 != nil <==> trapped(c, ret0)
+//@   ensures [exact0] p0ctx(c) && old(x.Form == Finite) && old(inlimits0(c, val(x.Coeff), x.Exponent)) ==> Exact0(old(ite(val(x.Coeff) == 0, false, !x.Negative)), old(val(x.Coeff)), old(x.Exponent), d, ret0)
 //@   ensures [rounded] wfctx(c) && old(x.Form) == Finite ==> Rounded(c, old(ite(val(x.Coeff) == 0, false, !x.Negative)), old(val(x.Coeff)), old(x.Exponent), d, ret0)
 //@   ensures [nan] NaN1(x, d, ret0)
 //@   ensures [inf] Inf1(x, !old(x.Negative), d, ret0)
@@ -915,6 +928,7 @@ package apd
 //@   ensures [closed] closed(ret0)
 //@   ensures [trap] ret1 != nil <==> trapped(c, ret0)
 //@   ensures [nan] NaN2(x, y, d, ret0)
+//@   ensures [exact0] p0ctx(c) && old(bothfin(x, y)) && old(-100000 <= x.Exponent && x.Exponent <= 100000 && -100000 <= y.Exponent && y.Exponent <= 100000) && old(inlimits0(c, val(x.Coeff) * val(y.Coeff), x.Exponent + y.Exponent)) ==> Exact0(old(x.Negative != y.Negative), old(val(x.Coeff) * val(y.Coeff)), old(x.Exponent + y.Exponent), d, ret0)
 //@   ensures [infinv] old(!isnan(x) && !isnan(y) && (x.Form == Infinite || y.Form == Infinite) && (iszero(x) || iszero(y))) ==> (d.Form == NaN && ret0 == InvalidOperation)
 //@   ensures [inf] old(!isnan(x) && !isnan(y) && (x.Form == Infinite || y.Form == Infinite) && !(iszero(x) || iszero(y))) ==> (d.Form == Infinite && d.Negative == old(x.Negative != y.Negative) && ret0 == 0)
 //@   hint pow10_add(c.Precision, nd10(val(x.Coeff) * val(y.Coeff)) - c.Precision)
@@ -1758,6 +1772,7 @@ package apd
 //@   ensures [invkeep] old(inv(d)) ==> inv(d)
 //@   ensures [closed] closed(ret1)
 //@   ensures [trap] ret2 != nil <==> trapped(c, ret1)
+//@   ensures [exact0] p0ctx(c) && old(x.Form == Finite && val(x.Coeff) != 0) && old(inlimits0(c, val(x.Coeff), x.Exponent)) ==> d.Form == Finite && d.Negative == old(x.Negative) && ret0 >= 0 && val(d.Coeff) * pow10(ret0) == old(val(x.Coeff)) && d.Exponent == old(x.Exponent) + ret0 && mod(val(d.Coeff), 10) != 0 && ret1 == 0
 //@   ensures [nan] NaN1(x, d, ret1)
 //@   ensures [inf] Inf1(x, old(x.Negative), d, ret1)
 
